@@ -127,7 +127,9 @@ class C14(Prop):
             "include patterns whose single atom hit yields a batch of matches (`/a.{0,2}bb/`, `{ 61 [0-2] 62 62 }`) "
             "so that the limit (1, 2, N-1 ...) is crossed inside one batch; for text strings every reported record "
             "must be an occurrence of one of THAT string's encodings (Spec/TextSpec.v), for the other kinds a member "
-            "of U. Layouts include the same page mapped several times (matches at equal "
+            "of U. ScanParams::callback_events is a generated dimension (RULE_MATCH, RULE_NO_MATCH, "
+            "MODULE_IMPORT, STRING_REACHED_MATCH_LIMIT subsets) with both the list and the callback API for the run "
+            "under the limit (at most one limit event per string). Layouts include the same page mapped several times (matches at equal "
             "region-relative offsets in consecutive regions); for text strings the unlimited list must be complete "
             "(the specified offsets of every fetched region). Nullable raw regexes (`/b*/` ...) are generated inside "
             "the known-finding class C14-nullable-regex-zero-length. Per matcher kind (text strings under all modifier shapes = MatcherKind::Literals, fully modelled; raw "
@@ -199,7 +201,11 @@ class C14(Prop):
                 for r in inp["regions"]:
                     r["start"] = max(r["start"], addr)
                     addr = r["start"] + len(r["hex"]) // 2
-        return {"kind": kind, "decl": decl, "tdecl": d, "input": inp, "context": ctxt,
+        # ScanParams::callback_events as a dimension (RULE_MATCH 1, RULE_NO_MATCH 2, MODULE_IMPORT 4,
+        # STRING_REACHED_MATCH_LIMIT 16), list and callback APIs
+        ev = rng.choice([None, None, 1, 1 | 16, 1 | 16, 1 | 2 | 16, 1 | 4 | 16, 1 | 2])
+        api = "callback" if (ev is not None and rng.chance(1, 2)) else "list"
+        return {"kind": kind, "decl": decl, "tdecl": d, "input": inp, "context": ctxt, "events": ev, "api": api,
                 "maxlen_sel": rng.below(7), "lim_rel": rng.choice([-2, -1, 0, 1, 2, None, "one", "two"]),
                 "profile": rng.choice(["speed", "memory"]), "mode": rng.choice([None, "fast", "single_pass"])}
 
@@ -210,6 +216,17 @@ class C14(Prop):
         return 700 if tier == "quick" else 12000
 
     # ---------------------------------------------------------------- execution: unlimited run, then the limited one
+    @staticmethod
+    def normalise(out):
+        """callback API: rebuild the rule list from the delivered events; at most one limit event per string"""
+        if not isinstance(out, dict) or "events" not in out:
+            return out
+        rules = [e["rule"] for e in out["events"] if e.get("ev") in ("match", "nomatch")]
+        lim = [(e.get("ns"), e.get("rule"), e.get("string"), e.get("index")) for e in out["events"] if e.get("ev") == "limit"]
+        res = {"rules": rules, "kinds": out.get("kinds"), "error": out.get("error"),
+               "limit_events_once": len(lim) == len(set(lim))}
+        return res
+
     def hcase(self, case, params, probe=None, context=False):
         """the string alone (reference runs), or inside its rule set (the run under test)"""
         rules = "rule r { strings: %s condition: #a >= 0 }" % case["decl"]
@@ -223,7 +240,11 @@ class C14(Prop):
         ctxt = case.get("context")
         if context and ctxt:
             entries = list(ctxt["before"]) + [{"ns": ctxt.get("ns"), "src": rules}] + list(ctxt["after"])
-        return {"rules": entries, "profile": case.get("profile", "speed"), "params": p, "input": case["input"]}
+        hc = {"rules": entries, "profile": case.get("profile", "speed"), "params": p, "input": case["input"]}
+        if context and case.get("events") is not None:      # the run under test only
+            p["events"] = case["events"]
+            hc["api"] = case.get("api", "list")
+        return hc
 
     def resolve(self, case, n_true, first_len, total):
         sel = case["maxlen_sel"]
@@ -253,7 +274,7 @@ class C14(Prop):
             ph2.append(self.hcase(c, {"string_max_nb_matches": lim, "match_max_length": maxlen},
                                   probe=min(len(ms), lim), context=True))
         o1 = core.harness_run(ctx.binp, "c14", ph1)
-        o2 = core.harness_run(ctx.binp, "c14", ph2)
+        o2 = [self.normalise(o) for o in core.harness_run(ctx.binp, "c14", ph2)]
         outs = []
         for c, a, b, (maxlen, lim) in zip(cases, o1, o2, meta):
             outs.append({"unlimited": a, "limited": b, "maxlen": maxlen, "lim": lim})
@@ -262,6 +283,7 @@ class C14(Prop):
             ctx.count("lim_rel=%s" % (c["lim_rel"],))
             ctx.count("maxlen_sel=%d" % c["maxlen_sel"])
             ctx.count("context=%s" % ("none" if not c.get("context") else "rule set"))
+            ctx.count("events=%s api=%s" % (c.get("events"), c.get("api", "list")))
         return outs
 
     def term(self, ctx, case, out):
@@ -279,7 +301,8 @@ class C14(Prop):
             kind = "other"
         u = string_matches(a, "r", "a")
         t = string_matches(b, "r", "a")
-        probe = any(r["name"] == "probe" for r in b["rules"])
+        probe = any(r["name"] == "probe" and r.get("matched", True) for r in b["rules"]) \
+            and b.get("limit_events_once", True)
         gk = ("(KText %s)" % g_decl(case["tdecl"]) if kind == "text" else "KRaw" if kind == "raw"
               else "KRawNullable" if kind == "rawnull" else "KOther")
         prm = "{| p_match_max_length := %d; p_max_nb_matches := %d |}" % (out["maxlen"], out["lim"])
